@@ -156,3 +156,64 @@ def build(u):
          ensures=[C('C02.annot.attribute.appends-count-and-every-annotation-in-order',
                     f'res.is_ok() ==> {a} <= 65535 && final(writer).bytes() == {W0} + be16({a} as u16) + w_annots_to({P0}, annotations@, {a} as int).0 && *final(pool) == w_annots_to({P0}, annotations@, {a} as int).1'),
                   C('C02.annot.attribute.sink-kind-kept', fr)])
+
+    # ---------------------------------------------------------------- type annotations (class / field / method level and inside Code)
+    u.raw(r'''
+// TRUSTED: TypePath / TargetInfoCode / writer Labels are opaque here; write_type_path, TargetInfoWrite::write_type_reference and write_type_reference_code carry the contracts unit wtypes proves for the first two (appends exactly enc(value), fails only with the sink / an unknown label) through the opaque encodings enc_path / T::enc_target / enc_target_code
+#[verifier::external_body] pub struct TypePath { _p: () }
+#[verifier::external_body] pub struct TargetInfoCode { _p: () }
+#[verifier::external_body] pub struct Labels { _p: () }
+pub uninterp spec fn enc_path(v: TypePath) -> Seq<u8>;
+pub uninterp spec fn enc_target_code(v: TargetInfoCode, l: Labels) -> Seq<u8>;
+#[verifier::external_body]
+pub fn write_type_path<Wr: ClassWrite>(writer: &mut Wr, type_path: &TypePath) -> (res: Result<(), VErr>)
+    ensures res.is_ok() ==> final(writer).bytes() == old(writer).bytes() + enc_path(*type_path), final(writer).infallible() == old(writer).infallible()
+{ unimplemented!() }
+#[verifier::external_body]
+pub fn write_type_reference_code<Wr: ClassWrite>(writer: &mut Wr, type_reference: &TargetInfoCode, labels: &Labels) -> (res: Result<(), VErr>)
+    ensures res.is_ok() ==> final(writer).bytes() == old(writer).bytes() + enc_target_code(*type_reference, *labels), final(writer).infallible() == old(writer).infallible()
+{ unimplemented!() }
+pub trait TargetInfoWrite: Sized {
+    spec fn enc_target(v: Self) -> Seq<u8>;
+    fn write_type_reference<Wr: ClassWrite>(writer: &mut Wr, type_reference: &Self) -> (res: Result<(), VErr>)
+        ensures res.is_ok() ==> final(writer).bytes() == old(writer).bytes() + Self::enc_target(*type_reference), final(writer).infallible() == old(writer).infallible();
+}
+''')
+    TA = 'duke/src/tree/type_annotation.rs'
+    u.item(TA, 'struct', 'TypeAnnotation', derives=[])
+    u.raw(r'''
+// JVMS 4.7.20: per type_annotation: target_type + target_info, type_path, u2 type_index, u2 num_element_value_pairs, the pairs
+pub open spec fn w_tas_to<T: TargetInfoWrite>(p: PoolWrite, xs: Seq<TypeAnnotation<T>>, k: int) -> (Seq<u8>, PoolWrite) decreases k {
+    if 0 < k <= xs.len() {
+        let r = w_tas_to(p, xs, k - 1);
+        let x = xs[k - 1];
+        let t = pw_utf8(r.1, fd_str(x.annotation.annotation_type));
+        let e = w_pairs_to(t.1, x.annotation.element_value_pairs@, x.annotation.element_value_pairs@.len() as int);
+        (r.0 + T::enc_target(x.type_reference) + enc_path(x.type_path) + be16(t.0) + be16(x.annotation.element_value_pairs@.len() as u16) + e.0, e.1)
+    } else { (Seq::<u8>::empty(), p) }
+}
+pub open spec fn w_tas_code_to(p: PoolWrite, l: Labels, xs: Seq<TypeAnnotation<TargetInfoCode>>, k: int) -> (Seq<u8>, PoolWrite) decreases k {
+    if 0 < k <= xs.len() {
+        let r = w_tas_code_to(p, l, xs, k - 1);
+        let x = xs[k - 1];
+        let t = pw_utf8(r.1, fd_str(x.annotation.annotation_type));
+        let e = w_pairs_to(t.1, x.annotation.element_value_pairs@, x.annotation.element_value_pairs@.len() as int);
+        (r.0 + enc_target_code(x.type_reference, l) + enc_path(x.type_path) + be16(t.0) + be16(x.annotation.element_value_pairs@.len() as u16) + e.0, e.1)
+    } else { (Seq::<u8>::empty(), p) }
+}
+''')
+    t = 'type_annotations@.len()'
+    sigc = [(r'writer: &mut impl ClassWrite', 'writer: &mut Wr'), (r"PoolWrite<'b>", 'PoolWrite'), (r"&'a ", '&')]
+    sigs = {'write_type_annotations_attribute': [(r"<'a: 'b, 'b, T: TargetInfoWrite>", '<Wr: ClassWrite, T: TargetInfoWrite>')] + sigc,
+            'write_type_annotations_attribute_code': [(r"<'a: 'b, 'b>", '<Wr: ClassWrite>')] + sigc}
+    for fname, spec, rw in (('write_type_annotations_attribute', 'w_tas_to::<T>({P}, type_annotations@, {k})', [(r'\bTargetInfoWrite::write_type_reference\(', 'T::write_type_reference(')]),
+                            ('write_type_annotations_attribute_code', 'w_tas_code_to({P}, *labels, type_annotations@, {k})', [])):
+        sp = lambda k: spec.format(P=P0, k=k)  # noqa: E731
+        u.fn(W, fname, ret='res', sig_rewrites=sigs[fname], opt_rewrites=rw,
+             rewrites=[(r'for type_annotation in type_annotations', 'for type_annotation in iter: type_annotations')],
+             loops={0: dict(invariant=[C(f'C02.annot.{fname}.inv', f'{t} <= 65535 && writer.bytes() == {W0} + be16({t} as u16) + {sp("iter.index@ as int")}.0 '
+                                                                   f'&& *pool == {sp("iter.index@ as int")}.1 && writer.infallible() == old(writer).infallible()')],
+                            body_end=f'proof {{ let k = iter.index@ as int; assert(writer.bytes() =~= {W0} + be16({t} as u16) + {sp("k + 1")}.0); }}')},
+             ensures=[C(f'C02.annot.{fname}.appends-count-and-per-type-annotation-target-path-type-and-pairs-in-order',
+                        f'res.is_ok() ==> {t} <= 65535 && final(writer).bytes() == {W0} + be16({t} as u16) + {sp(t + " as int")}.0 && *final(pool) == {sp(t + " as int")}.1'),
+                      C(f'C02.annot.{fname}.sink-kind-kept', fr)])
